@@ -243,6 +243,9 @@ def run(res, replay=None):
     if not ok_proof:
         proof_failure_violation(res, found)
     return res.finish(trusted=[
+        "translator harness/srcexprs.py: clang 14's typed AST (-ast-dump=json, -std=c++17, this host's target) of the bitset_base<T> get/set bit operators (T = uint8..uint64), "
+        "instantiated in a generated unit, copied node by node into CExpr.v terms (coq/SrcExprs.v, regenerated on every run); "
+        "trusted: clang's parse and the types it assigns, the one-to-one node mapping, CExpr.ceval as the meaning of a node",
         "CInt.v models integral promotion / usual arithmetic conversions / shift UB on LP64 (int=32 bit)",
         "correspondence harness cpp/c15_harness.cpp + generated hs_sets schema (sbeppc from /repo)",
         "extraction: ExtrOcamlBasic only; ocaml/drv_*.ml decimal<->Z conversion"])
